@@ -204,7 +204,11 @@ PROPS["C12"] = dict(
          "send() returns within 1 s and the reading subscriber gets everything in order. (resume) PUB with SNDTIMEO 0/30/100/200 ms over "
          "inproc/tcp/ipc, a real SUB with RCVHWM 2 that stops reading during a burst of 60 and then reads again, beside a SUB that keeps up: "
          "the stalled one may miss burst messages but must receive all 10 messages published after it resumed; the other must have everything "
-         "in order. distinct = histories / (transport, round, subscriber). "
+         "in order. (announce) the SUB against 1..3 raw publishers that FILTER AT THE SOURCE the way libzmq's PUB does (per connection, last announcement "
+         "for a topic wins), over tcp/ipc: random histories of subscribe/unsubscribe, publishers attaching late and connections being reset; at a "
+         "quiescent point after every event each publisher's announced set must equal the model's active set within 1.5 s (a missing one is the "
+         "violation, a stale one is only recorded) and a burst of probes filtered by each publisher's own view must reach the application exactly "
+         "as the model matches. distinct = histories / (transport, round, subscriber). "
          "(thorough) the race layer again inside Miri (6 scheduler seeds, mutator bounded by 400 operations): data-race detector, default "
          "aliasing model and weak-memory emulation - loads may return stale values x86 never shows - with the same never-covered-family oracle.",
     assumptions=["'when the message reaches it' is made unambiguous by changing subscriptions only between sentinel-delimited bursts",
@@ -214,6 +218,7 @@ PROPS["C12"] = dict(
     + sharded("c12", _n(tier, 3, 6), 600, extra=["--only", "e2e"], name="c12-e2e")
     + sharded("c12", 3, 300, extra=["--only", "stall"], name="c12-stall")
     + sharded("c12", 5, 300, extra=["--only", "resume"], name="c12-resume")
+    + sharded("c12", _n(tier, 2, 6), 600, extra=["--only", "announce"], name="c12-announce")
     + sharded("c12", _n(tier, 2, 4), 600, extra=["--only", "contend"], name="c12-contend")
     + ([dict(bin="c12", flavour="tsan", args=["--only", "contend", "--shard", "%d/4" % i], timeout=1500, name="c12-tsan-contend-%d" % i) for i in range(4)]
        + [dict(bin="c12", flavour="tsan", args=["--only", "race"], timeout=1500, name="c12-tsan-race")]
